@@ -134,8 +134,9 @@ func c08Typestate(c *Ctx) {
 				bad = append(bad, fmt.Sprintf("a failed write is not reported (%q)", w))
 			}
 		}
-		if results[0].N != NNon && strings.Contains(w, "create=") {
-			bad = append(bad, fmt.Sprintf("StoreChunk can return nil without the chunk having been renamed into place (%q)", w))
+		if results[0].N != NNon {
+			// (paths through a successful rename returned above)
+			bad = append(bad, fmt.Sprintf("StoreChunk can return nil without the chunk having been renamed into place (events %q, return at %s): an existing - possibly invalid - file under the chunk's name is left as it is, or nothing is stored", w, c.pos(ret.Pos())))
 		}
 	}
 	Explore(fn, fn.Blocks[0], 0, nil, NewState(), h)
